@@ -108,7 +108,7 @@ theorem iter_expand (e : Env F) (mst : AStar.St F) (s : State F) (hs : s.ctl = .
   ilsimp [hr3]
   refine ⟨hinv3.const.of_frame rfl rfl rfl rfl rfl ?_ ?_ ?_ ?_ ?_ ?_, hinv3.abs.of_eq rfl rfl, rfl, ?_⟩
   all_goals first
-    | (simp [setS_apply]; done)
+    | simp [setS_apply]
     | (rw [hp3, hfa2])
 
 /-- the parent walk only looks at the cells it visits -/
